@@ -60,7 +60,7 @@ def handle (cmd : String) (args : List Sx) : String :=
       let git := match GitSpec.parsePat l with
         | none => "skip"
         | some p => s!"pat:{b01 p.negative}{b01 p.mustBeDir}{b01 p.noDir}:{cpHex p.text}"
-      rg ++ " " ++ git ++ (if Props.C04.okFileLine l then " ok1" else " ok0")
+      rg ++ " " ++ git ++ (if Props.C04.okFileLine ci l then " ok1" else " ok0")
     | _, _ => "bad-op"
   | "c04.file", [ci, root, .list (.atom "lines" :: ls), .list (.atom "paths" :: ps)] =>
     match ci.bool?, root.bytes?, ls.mapM parseLineSx,
@@ -80,7 +80,7 @@ def handle (cmd : String) (args : List Sx) : String :=
     | some ci, some tab, some ps =>
       let ign := lookupIgn tab
       -- the guard of theorem C04_partial, evaluated with the theorem's own predicate
-      let guard := !ci && tab.all fun e => e.2.all Props.C04.okFileLine
+      let guard := tab.all fun e => e.2.all (Props.C04.okFileLine ci)
       (if guard then "g1 " else "g0 ") ++ String.ofList (ps.flatMap fun (d, comps) =>
         [if rgSkipped ci ign comps d then '1' else '0',
          if GitSpec.gitIgnored ci ign comps d then '1' else '0'])
